@@ -58,7 +58,10 @@ class TimestampType(IntType, prim='timestamp'):  # type: ignore
         if mode in ['optimized', 'legacy_optimized']:
             return {'int': str(self.value)}
         elif mode == 'readable':
-            return {'string': format_timestamp(self.value)}
+            # RFC3339 notation only exists for the years 1000-9999, other timestamps are written as integers
+            if -30610224000 <= self.value <= 253402300799:
+                return {'string': format_timestamp(self.value)}
+            return {'int': str(self.value)}
         else:
             raise AssertionError(f'unsupported mode {mode}')
 
